@@ -60,6 +60,18 @@ P = {
  "C09": (True, "conc", "loader-controlled scenario enumeration (load kind x write kind x write position, parked at the load.beforeInstall yield point) + jittered stress, oracle: a loaded value is never observed as current after an effective write called after the loader entry",
    "Held on the explored scenarios and stress histories, except the recorded known finding D8 (a Set straddling the start of the load), which is reported from its deterministic witness only.",
    "A load is taken to be in flight from its loader entry (the latest start a black box can see), so the oracle never demands more than the statement.", "4/C09"),
+ "C15": (True, "comp", "component stress of the real table (internal/hashmap through a verif-tag wrapper): porcupine per hot key, stable-key presence under growth/shrink, Range once-only / nothing removed before start, Size at quiescence, Clear; race detector (+ asan in the thorough tier)",
+   "Held on the explored trials with churn goroutines that grow and shrink the table repeatedly and initial capacities from 0 to 10^4; observed growths/shrinks and chain lengths are reported.",
+   "Hash collisions within a chain cannot be forced (seeded maphash): chains get long only by load.", "4/C15"),
+ "C16": (True, "comp", "component stress of the real MPSC write buffer: exactly-once, per-producer order, justified refusals, Size <= capacity, sequential capacity sweep over (initial,max) pairs; race detector (+ asan)",
+   "Held on the explored trials with 1-16 producers, delays between index CAS and element publication and inside resize.",
+   "A refusal is judged with the sound bound (pushes begun before it returned minus pops completed before it was called >= capacity).", "4/C16"),
+ "C17": (True, "comp", "component stress of the real striped ring buffer: delivered is a subset of recorded, at most once, bounded length, complete after quiescence; race detector (+ asan)",
+   "Held on the explored trials with many recorders against one drainer and delays between tail CAS and slot publication / under the busy flag; the cache-level half (results unchanged when reads are dropped) is covered by the sequential engine, whose read buffer saturates between maintenance runs.",
+   "Stripe selection uses the runtime's fastrand: which stripes collide is not controlled.", "4/C17"),
+ "C18": (True, "comp", "reference-count monitor on thousands of real sketch instances (fresh hash seed each) and admission-rule check with injected random words",
+   "Held on the explored cases: estimates never under-count within a sampling period, never exceed 15, are zero before ensureCapacity, are exactly halved by an aging step; admit() follows the documented rule for every generated (candidate, victim, random word).",
+   "Sampling-period boundaries are read from the sketch's size counter through the verif-tag wrapper.", "4/C18"),
 }
 NOT_YET = {
  "C02": "check under construction in this session (concurrent engine)",
